@@ -58,7 +58,7 @@ DEFAULT_OUT = ("default",)
 
 
 # ----------------------------------------------------------------------------------------------- key family
-KINDS = {"p": "plain", "n": "nested", "g": "generic"}
+KINDS = {"p": "plain", "n": "nested", "g": "generic", "s": "subscripted"}  # s = list[<previous base>] (a key that is not a class)
 
 
 def _base_src(kind, i):
@@ -69,6 +69,9 @@ def _base_src(kind, i):
         return [f"class Outer{i}:", f"    class B{i}: pass"], f"Outer{i}.B{i}", f"Outer{i}.B{i}"
     if kind == "generic":
         return [f'T{i} = typing.TypeVar("T{i}")', f"class B{i}(typing.Generic[T{i}]): pass"], f"B{i}", f"B{i}"
+    if kind == "subscripted":
+        assert i >= 1, "a subscripted base is list[<previous base>]"
+        return [], f"list[B{i - 1}]", f"list[B{i - 1}]"
     raise ValueError(kind)
 
 
@@ -105,7 +108,7 @@ class Family:
         self.keys, self.labels, self.form_of, self.base_of = [], [], [], []
         for i in range(nb):
             base = eval(exprs[i], m.__dict__)  # noqa: S307 - our own synthesised source
-            assert isinstance(base, type) and base.__qualname__ == names[i] and base.__module__ == self.modname
+            assert self.kind_of[i] == "subscripted" or (isinstance(base, type) and base.__qualname__ == names[i] and base.__module__ == self.modname)
             per = {
                 "base": base,
                 "newtype": getattr(m, f"NB{i}"),
@@ -127,7 +130,7 @@ class Family:
                 "classvar": getattr(m, f"CB{i}"),
             }
             # the family's "ForwardRef to it" is the reference whose text evaluates to the base in its module
-            assert per["fwdref"].__forward_arg__ == names[i] and eval(per["fwdref"].__forward_arg__, m.__dict__) is base  # noqa: S307
+            assert per["fwdref"].__forward_arg__ == names[i] and eval(per["fwdref"].__forward_arg__, m.__dict__) == base  # noqa: S307
             for f in self.forms:
                 self.keys.append(per[f])
                 self.labels.append(f"{f}{i}")
@@ -674,7 +677,7 @@ def _hostile_state(fam, hist, res, X):
 def units(tier):
     nk3 = 3 * len(FORMS)
     return (
-        [("dictlike", "p"), ("falsy", "p"), ("chains", "p"), ("chains", "n"), ("order", "p"), ("order", "n"), ("order", "g"), ("closure", "pn"), ("closure", "pg"), ("depth", "png", "root")]
+        [("dictlike", "p"), ("closure", "ps"), ("falsy", "p"), ("chains", "p"), ("chains", "n"), ("order", "p"), ("order", "n"), ("order", "g"), ("closure", "pn"), ("closure", "pg"), ("depth", "png", "root")]
         + [("depth", "png", i) for i in range(nk3)]
     )
 
@@ -690,7 +693,7 @@ def meta(tier):
         "answered through a fallback",
         "bounds": {
             "bases": "p = plain top-level class, n = class nested in a class (qualname 'Outer1.B1'), g = bare typing.Generic subclass",
-            "closure": "2 bases x 6 forms, pairings (p,n) and (p,g): fixpoint each (all histories of any length)",
+            "closure": "2 bases x 6 forms, pairings (p,n), (p,g) and (p,s) - s = list[B0], a key that is not a class, next to its own element class: fixpoint each (all histories of any length)",
             "order": "1 base x 9 forms (6 + forward references naming the NewType/alias/string alias), for each of p, n, g: fixpoint",
             "dictlike": "1 base (p) x 6 forms: fixpoint; key with raising hash probed in every state",
             "falsy": "1 base (p) x 6 forms, the stored values are None, 0, '', (), frozenset(), b'' (one per key): fixpoint",
